@@ -192,6 +192,15 @@ func GenPlan(profile string, seed uint64, thorough bool) *Plan {
 	if ((profile == "C03" || profile == "C06" || profile == "C15") && r.Intn(7) == 0) || (profile == "C13" && r.Intn(6) == 0) {
 		p.Wide = "tables" // more than one page (32) of target tables in one relation node
 	}
+	// big worlds: the library's default capacity increment, hundreds to thousands of entities, batch creations of
+	// hundreds, one multi-kilobyte component. Costly per run, so only a small share of the plans.
+	if bigShare := map[bool]int{false: 24, true: 10}[thorough]; p.Wide == "" && profile != "C14" && profile != "C10" && r.Intn(bigShare) == 0 {
+		p.Wide = "big"
+		k := 1 + r.Intn(len(p.Types)-1)
+		if p.Types[k].Kind == "bytes" || p.Types[k].Kind == "rel" {
+			p.Types[k].Size = []int{200, 1000, 4097, 9000}[r.Intn(4)]
+		}
+	}
 	if p.Wide == "tables" && len(p.Types) > 2 {
 		// very few component sets, so that one relation node really collects more than a page (32) of target tables
 		p.Types = p.Types[:2]
@@ -227,6 +236,21 @@ func GenPlan(profile string, seed uint64, thorough bool) *Plan {
 		case "nodes":
 			p.Weights["xchg"] = 40
 			p.Steps += 100
+		case "big":
+			p.CapInc = []int{128, 128, 100, 256, 64}[r.Intn(5)]
+			p.EntityCap = 300 + r.Intn(900)
+			if thorough && r.Intn(3) == 0 {
+				p.EntityCap = 1500 + r.Intn(2500)
+			}
+			p.Weights["new"] += 10
+			p.Weights["newbatch"] = 25
+			p.Weights["batch"] += 6
+			p.Weights["reset"] = 0
+			if p.Profile == "C15" || p.Profile == "C02" {
+				p.Weights["reset"] = 1
+			}
+			p.FullEvery = 6
+			p.Steps = 150 + r.Intn(150)
 		}
 	}
 	return p
